@@ -376,25 +376,29 @@ func commandCodec(c *Ctx, rule string) {
 	encMP := p.MustFunc(pkgConsensus, "encodeMsgPack")
 	decMP := p.MustFunc(pkgConsensus, "decodeMsgPack")
 	// encode: WriteByte(c.id) precedes Write(encodeMsgPack(in)); c.data = buf.Bytes()
-	var wb, w ssa.Instruction
-	eachInstr(enc, func(in ssa.Instruction) {
+	// (the framing may be delegated to a helper of the package: the region describes it in encode's terms)
+	rgE := p.RegionOf(enc, 2)
+	var wb, w *regionInstr
+	nwb := 0
+	rgE.Instrs(func(site regionSite, in ssa.Instruction) {
 		cc := callCommon(in)
 		if cc == nil || cc.StaticCallee() == nil {
 			return
 		}
+		ri := regionInstr{site, in}
 		switch cc.StaticCallee().Name() {
 		case "WriteByte":
-			if p.TermOf(cc.Args[1]).IsField("id", isParam(enc, 0)) || isRecvFieldLoad(cc.Args[1], enc, "id") {
-				wb = in
+			nwb++
+			if rgE.Term(site, cc.Args[1]).IsField("id", isParam(enc, 0)) || site.owner == enc && isRecvFieldLoad(cc.Args[1], enc, "id") {
+				wb = &ri
 			}
 		case "Write":
-			if p.TermOf(cc.Args[1]).Has(func(t *Term) bool { return t.IsCallTo(encMP) && t.Args[0].IsParam(enc, 1) }) {
-				w = in
+			if p.XAll(rgE.Term(site, cc.Args[1]), func(g *ssa.Function) bool { return g == encMP || g.Pkg != enc.Pkg }).Has(func(t *Term) bool { return t.IsCallTo(encMP) && t.Args[0].IsParam(enc, 1) }) {
+				w = &ri
 			}
 		}
 	})
-	nwb := len(callsIn(enc, func(k *ssa.CallCommon) bool { return k.StaticCallee() != nil && k.StaticCallee().Name() == "WriteByte" }))
-	okE := wb != nil && w != nil && instrBefore(wb, w) && nwb == 1
+	okE := wb != nil && w != nil && rgE.Before(*wb, *w) && nwb == 1
 	c.Check(okE, rule, funcName(enc), enc.Pos(), "data = [type byte] ‖ msgpack(body)", "command.encode does not write exactly one type byte (c.id) followed by the msgpack body")
 	// decode: decodeMsgPack(c.data[1:], out)
 	okD := false
